@@ -130,7 +130,10 @@ where
         if !sizeOk total then .error .ValueError
         else match mmap total (fun bytes => decodeInt be ws n bytes bitsUsed) with
           | .error e => .error e
-          | .ok m => if maskFits (upcastBits ws) then .ok m else .error .OverflowError
+          | .ok m =>
+            -- all widths zero: `int(2**max(ceil(log2(0))))` is 0 and `np.zeros(shape, dtype='u0')` is refused
+            if ws.foldl max 0 == 0 then .error .TypeError
+            else if maskFits (upcastBits ws) then .ok m else .error .OverflowError
     | .F =>
       if !(ws.all (· == 32)) then .error .ValueError
       else
